@@ -1,1 +1,1053 @@
-(* placeholder: to be written *)
+(** Lemmas about the weekly-rewards-splitting model ([Model.Weekly]) and the fees collector built on
+    it ([Model.FeesCollector]); the property statements of C10 in [Props/C10.v] are instances.
+
+    Part A  energy decay, claim loop structure, the share formula, the claim window
+    Part B  fees collector: claim characterisation, at-most-once over histories, frozen totals
+    Part C  the global bookkeeping invariant: total energy = sum of the recorded energies decayed to the
+            week, with the expiry-bucket invariant that makes the weekly shift exact
+    Part D  never more than deposited; the collector can always pay *)
+From MX Require Import Base.Prelude Gen.Params Model.Weekly Model.FeesCollector.
+
+(** The only facts about the generated constants the proofs use. *)
+Lemma weekly_params : 0 < EPOCHS_IN_WEEK /\ 0 <= USER_MAX_CLAIM_WEEKS /\ 0 <= BLOCKS_IN_WEEK.
+Proof. vm_compute. repeat split; congruence. Qed.
+
+Lemma week_pos : 0 < EPOCHS_IN_WEEK.
+Proof. apply weekly_params. Qed.
+Lemma max_weeks_nonneg : 0 <= USER_MAX_CLAIM_WEEKS.
+Proof. apply weekly_params. Qed.
+
+Global Opaque EPOCHS_IN_WEEK USER_MAX_CLAIM_WEEKS BLOCKS_IN_WEEK.
+
+Local Notation WK := EPOCHS_IN_WEEK.
+Local Notation MAXW := USER_MAX_CLAIM_WEEKS.
+
+(** ================================================================== Part A *)
+
+(** ------------------------------------------------------------------ maps *)
+Lemma rget_rset_same l k v : rget (rset l k v) k = v.
+Proof.
+  induction l as [|[k' v'] t IH]; simpl.
+  - rewrite Z.eqb_refl. reflexivity.
+  - destruct (k' =? k) eqn:E; simpl.
+    + rewrite Z.eqb_refl. reflexivity.
+    + rewrite E. exact IH.
+Qed.
+
+Lemma rget_rset_other l k k2 v : k <> k2 -> rget (rset l k v) k2 = rget l k2.
+Proof.
+  intros Hne. induction l as [|[k' v'] t IH]; simpl.
+  - destruct (k =? k2) eqn:E; [apply Z.eqb_eq in E; contradiction | reflexivity].
+  - destruct (k' =? k) eqn:E; simpl.
+    + apply Z.eqb_eq in E. subst k'.
+      destruct (k =? k2) eqn:E2; [apply Z.eqb_eq in E2; contradiction | reflexivity].
+    + destruct (k' =? k2); [reflexivity | exact IH].
+Qed.
+
+Lemma pfind_pset_same l u p : pfind (pset l u p) u = Some p.
+Proof.
+  induction l as [|[u' p'] t IH]; simpl.
+  - rewrite Z.eqb_refl. reflexivity.
+  - destruct (u' =? u) eqn:E; simpl.
+    + rewrite Z.eqb_refl. reflexivity.
+    + rewrite E. exact IH.
+Qed.
+
+Lemma pfind_pset_other l u u2 p : u <> u2 -> pfind (pset l u p) u2 = pfind l u2.
+Proof.
+  intros Hne. induction l as [|[u' p'] t IH]; simpl.
+  - destruct (u =? u2) eqn:E; [apply Z.eqb_eq in E; contradiction | reflexivity].
+  - destruct (u' =? u) eqn:E; simpl.
+    + apply Z.eqb_eq in E. subst u'.
+      destruct (u =? u2) eqn:E2; [apply Z.eqb_eq in E2; contradiction | reflexivity].
+    + destruct (u' =? u2); [reflexivity | exact IH].
+Qed.
+
+Lemma pfind_pdel_same l u : pfind (pdel l u) u = None.
+Proof.
+  unfold pdel. induction l as [|[u' p'] t IH]; simpl; [reflexivity|].
+  destruct (u' =? u) eqn:E; simpl; [exact IH|]. rewrite E. exact IH.
+Qed.
+
+Lemma pfind_pdel_other l u u2 : u <> u2 -> pfind (pdel l u) u2 = pfind l u2.
+Proof.
+  intros Hne. unfold pdel. induction l as [|[u' p'] t IH]; simpl; [reflexivity|].
+  destruct (u' =? u) eqn:E; simpl.
+  - apply Z.eqb_eq in E. subst u'.
+    destruct (u =? u2) eqn:E2; [apply Z.eqb_eq in E2; contradiction | exact IH].
+  - destruct (u' =? u2); [reflexivity | exact IH].
+Qed.
+
+(** equality of small records up to linear arithmetic in the fields *)
+Ltac req := first [reflexivity | lia | (f_equal; first [reflexivity | lia | (f_equal; first [reflexivity | lia])])].
+
+(** ------------------------------------------------------------------ energy decay *)
+(** the signed amount of a recorded entry after decaying to week [w] (7 epochs of all its tokens per week) *)
+Definition decay_amt (p : progress) (w : Z) : Z :=
+  en_amt (pr_en p) - WK * en_tok (pr_en p) * (w - pr_week p).
+
+(** "their energy for that week": the positive part *)
+Definition energy_at (p : progress) (w : Z) : Z := Z.max 0 (decay_amt p w).
+
+(** the entry advanced by [k] weeks *)
+Definition adv (p : progress) (k : Z) : progress :=
+  mkProg (mkEn (en_amt (pr_en p) - en_tok (pr_en p) * (WK * k)) (en_epoch (pr_en p) + WK * k) (en_tok (pr_en p)))
+         (pr_week p + k).
+
+Lemma en_amount_max e : en_amount e = Z.max 0 (en_amt e).
+Proof. unfold en_amount. destruct (0 <? en_amt e) eqn:E; [apply Z.ltb_lt in E | apply Z.ltb_ge in E]; lia. Qed.
+
+Lemma en_amount_nonneg e : 0 <= en_amount e.
+Proof. rewrite en_amount_max. lia. Qed.
+
+Lemma deplete_fwd e n : 0 <= en_tok e -> 0 <= n ->
+  en_deplete e (en_epoch e + n) = mkEn (en_amt e - en_tok e * n) (en_epoch e + n) (en_tok e).
+Proof.
+  intros Ht Hn. unfold en_deplete. destruct e as [a ep t]; simpl in *.
+  destruct (ep =? ep + n) eqn:E.
+  - apply Z.eqb_eq in E. assert (n = 0) by lia. subst n. f_equal; lia.
+  - apply Z.eqb_neq in E. f_equal.
+    destruct (0 <? t) eqn:E1; simpl.
+    + destruct (ep <? ep + n) eqn:E2; [lia | apply Z.ltb_ge in E2; lia].
+    + apply Z.ltb_ge in E1. assert (t = 0) by lia. subst t. lia.
+Qed.
+
+Lemma advance_week_adv p : 0 <= en_tok (pr_en p) -> advance_week p = adv p 1.
+Proof.
+  intros Ht. unfold advance_week, adv. pose proof week_pos.
+  rewrite deplete_fwd by lia. req.
+Qed.
+
+Lemma advance_multiple_adv p n : 0 <= en_tok (pr_en p) -> 0 <= n -> advance_multiple_weeks p n = adv p n.
+Proof.
+  intros Ht Hn. unfold advance_multiple_weeks, adv. pose proof week_pos.
+  rewrite deplete_fwd by nia. reflexivity.
+Qed.
+
+Lemma adv_adv p a b : adv (adv p a) b = adv p (a + b).
+Proof. unfold adv; simpl. req. Qed.
+
+Lemma adv_0 p : adv p 0 = p.
+Proof. unfold adv. destruct p as [[a e t] w]; simpl. req. Qed.
+
+Lemma adv_week p k : pr_week (adv p k) = pr_week p + k.
+Proof. reflexivity. Qed.
+
+Lemma adv_tok p k : en_tok (pr_en (adv p k)) = en_tok (pr_en p).
+Proof. reflexivity. Qed.
+
+Lemma adv_amount p k : en_amount (pr_en (adv p k)) = energy_at p (pr_week p + k).
+Proof. rewrite en_amount_max. unfold energy_at, decay_amt, adv; simpl. f_equal. lia. Qed.
+
+Lemma energy_at_nonneg p w : 0 <= energy_at p w.
+Proof. unfold energy_at. lia. Qed.
+
+(** ------------------------------------------------------------------ the share formula *)
+(** q = floor(n / d), by cross-multiplication *)
+Definition floor_of (q n d : Z) : Prop := q * d <= n < q * d + d.
+
+Lemma floor_of_div n d : 0 < d -> floor_of (n / d) n d.
+Proof. intros. split; [apply div_lo | apply div_hi]; assumption. Qed.
+
+(** every payment is the floor share of one of the week's totals, in order, zero shares dropped *)
+Lemma shares_char tot e E : 0 < E ->
+  shares tot e E = filter (fun p => 0 <? snd p) (map (fun ta => (fst ta, snd ta * e / E)) tot).
+Proof.
+  intros HE. induction tot as [|[t a] tl IH]; simpl; [reflexivity|].
+  destruct (0 <? a * e / E); simpl; rewrite IH; reflexivity.
+Qed.
+
+Lemma shares_in tot e E t x : 0 < E -> In (t, x) (shares tot e E) ->
+  exists a, In (t, a) tot /\ floor_of x (a * e) E /\ 0 < x.
+Proof.
+  intros HE. induction tot as [|[t' a] tl IH]; simpl; [intros []|].
+  destruct (0 <? a * e / E) eqn:Ep.
+  - intros [Heq|Hin].
+    + inversion Heq; subst. exists a. split; [left; reflexivity|].
+      split; [apply floor_of_div; assumption | apply Z.ltb_lt in Ep; exact Ep].
+    + destruct (IH Hin) as (a' & Hin' & Hf). exists a'. split; [right; exact Hin' | exact Hf].
+  - intros Hin. destruct (IH Hin) as (a' & Hin' & Hf). exists a'. split; [right; exact Hin' | exact Hf].
+Qed.
+
+Lemma shares_complete tot e E t a : 0 < E -> In (t, a) tot -> 0 < a * e / E -> In (t, a * e / E) (shares tot e E).
+Proof.
+  intros HE. induction tot as [|[t' a'] tl IH]; simpl; [intros []|].
+  intros [Heq|Hin] Hp.
+  - inversion Heq; subst. apply Z.ltb_lt in Hp. rewrite Hp. left; reflexivity.
+  - destruct (0 <? a' * e / E); [right|]; apply IH; assumption.
+Qed.
+
+(** total paid per token of one week's share list *)
+Definition tok_sum (l : list (Z * Z)) (t : Z) : Z :=
+  fold_right (fun p acc => if fst p =? t then snd p + acc else acc) 0 l.
+
+Lemma tok_sum_app l1 l2 t : tok_sum (l1 ++ l2) t = tok_sum l1 t + tok_sum l2 t.
+Proof. induction l1 as [|[t' a] tl IH]; simpl; [lia|]. destruct (t' =? t); rewrite IH; lia. Qed.
+
+Lemma tok_sum_shares_le tot e E t : 0 < E -> 0 <= e -> Forall (fun p => 0 <= snd p) tot ->
+  tok_sum (shares tot e E) t * E <= tok_sum tot t * e /\ 0 <= tok_sum (shares tot e E) t.
+Proof.
+  intros HE He. induction tot as [|[t' a] tl IH]; simpl; intros Hall; [lia|].
+  inversion Hall as [|? ? Ha Htl]; subst. simpl in Ha. destruct (IH Htl) as [IH1 IH2].
+  pose proof (div_lo (a * e) E HE) as Hlo.
+  assert (0 <= a * e / E) by (apply div_nonneg; [nia | assumption]).
+  destruct (0 <? a * e / E) eqn:Ep; simpl.
+  - destruct (t' =? t); [|split; assumption]. split; nia.
+  - apply Z.ltb_ge in Ep. destruct (t' =? t); [|split; assumption]. split; nia.
+Qed.
+
+(** ------------------------------------------------------------------ frames *)
+(** everything of the weekly state except the frozen weekly totals *)
+Definition same_but_rewards (s s' : wstate) : Prop :=
+  w_prog s' = w_prog s /\ w_energy s' = w_energy s /\ w_tokens s' = w_tokens s /\ w_last s' = w_last s /\
+  w_first s' = w_first s /\ w_btok s' = w_btok s /\ w_bsur s' = w_bsur s.
+
+Lemma sbr_refl s : same_but_rewards s s.
+Proof. unfold same_but_rewards. repeat split. Qed.
+
+Lemma sbr_trans s1 s2 s3 : same_but_rewards s1 s2 -> same_but_rewards s2 s3 -> same_but_rewards s1 s3.
+Proof.
+  unfold same_but_rewards. intros (a1 & a2 & a3 & a4 & a5 & a6 & a7) (b1 & b2 & b3 & b4 & b5 & b6 & b7).
+  repeat split; congruence.
+Qed.
+
+Lemma sbr_set_rewards s l : same_but_rewards s (set_rewards s l).
+Proof. unfold same_but_rewards. repeat split. Qed.
+
+(** consecutive weeks a, a+1, ..., a+n-1 *)
+Fixpoint zseq (a : Z) (n : nat) : list Z :=
+  match n with O => [] | S n' => a :: zseq (a + 1) n' end.
+
+Lemma zseq_in a n w : In w (zseq a n) <-> a <= w < a + Z.of_nat n.
+Proof.
+  revert a. induction n as [|n IH]; intros a; simpl.
+  - split; [intros [] | lia].
+  - rewrite IH. split; [intros [->|Hx]; lia | intros Hx; destruct (Z.eq_dec a w); [left; assumption | right; lia]].
+Qed.
+
+Lemma zseq_nodup a n : NoDup (zseq a n).
+Proof.
+  revert a. induction n as [|n IH]; intros a; simpl; constructor; [|apply IH].
+  rewrite zseq_in. lia.
+Qed.
+
+(** ------------------------------------------------------------------ default hook *)
+Section DefaultHook.
+  Variable H : Type.
+  Variable collect : H -> Z -> H * list (Z * Z).
+
+  Lemma collect_and_get_spec h s week h' s' tot :
+    collect_and_get H collect h s week = (h', s', tot) ->
+    same_but_rewards s s' /\
+    (forall w, w <> week -> rget (w_rewards s') w = rget (w_rewards s) w) /\
+    rget (w_rewards s') week = tot /\
+    (rget (w_rewards s) week <> [] -> tot = rget (w_rewards s) week /\ h' = h /\ s' = s) /\
+    (rget (w_rewards s) week = [] -> (h', tot) = collect h week).
+  Proof.
+    unfold collect_and_get. destruct (rget (w_rewards s) week) as [|x r] eqn:Er.
+    - destruct (collect h week) as [h1 r1] eqn:Ec. intros Heq; inversion Heq; subst.
+      split; [apply sbr_set_rewards|]. split; [intros w Hw; simpl; apply rget_rset_other; congruence|].
+      split; [simpl; apply rget_rset_same|]. split; [intros Hne; congruence | reflexivity].
+    - intros Heq; inversion Heq; subst. split; [apply sbr_refl|]. split; [reflexivity|].
+      split; [exact Er|]. split; [intros _; repeat split | intros Hn; discriminate].
+  Qed.
+
+  Lemma default_hook_spec h s week e E h' s' r :
+    default_user_rewards H collect h s week e E = Ok (h', s', r) ->
+    same_but_rewards s s' /\
+    (forall w, w <> week -> rget (w_rewards s') w = rget (w_rewards s) w) /\
+    r = (if (e =? 0) || (E =? 0) then [] else shares (rget (w_rewards s') week) e E) /\
+    (rget (w_rewards s) week <> [] -> rget (w_rewards s') week = rget (w_rewards s) week /\ h' = h) /\
+    ((e =? 0) || (E =? 0) = true -> s' = s /\ h' = h) /\
+    ((e =? 0) || (E =? 0) = false -> rget (w_rewards s) week = [] -> (h', rget (w_rewards s') week) = collect h week).
+  Proof.
+    unfold default_user_rewards. destruct ((e =? 0) || (E =? 0)) eqn:Ez.
+    - intros Heq; inversion Heq; subst. split; [apply sbr_refl|]. split; [reflexivity|].
+      split; [reflexivity|]. split; [intros; split; reflexivity|]. split; [intros; split; reflexivity | discriminate].
+    - destruct (collect_and_get H collect h s week) as [[h1 s1] tot] eqn:Ec.
+      intros Heq; inversion Heq; subst.
+      destruct (collect_and_get_spec _ _ _ _ _ _ Ec) as (Hs & Ho & Hw & Hne & Hem).
+      split; [exact Hs|]. split; [exact Ho|]. split; [rewrite Hw; reflexivity|].
+      split; [intros Hn; destruct (Hne Hn) as (-> & -> & ->); split; reflexivity|].
+      split; [discriminate|]. intros _ Hn. rewrite Hw. apply Hem. exact Hn.
+  Qed.
+End DefaultHook.
+
+(** ------------------------------------------------------------------ claim loop, any hook that only
+    touches the host and the frozen weekly totals (true of the default hook and of the farms' one) *)
+Section ClaimLoop.
+  Variable H : Type.
+  Variable hook : H -> wstate -> Z -> Z -> Z -> result (H * wstate * list (Z * Z)).
+  Hypothesis hook_frame : forall h s w e E h' s' r, hook h s w e E = Ok (h', s', r) -> same_but_rewards s s'.
+
+  Lemma claim_weeks_frame n : forall h s p h' s' p' det,
+    0 <= en_tok (pr_en p) ->
+    claim_weeks H hook n h s p = Ok (h', s', p', det) ->
+    same_but_rewards s s' /\ p' = adv p (Z.of_nat n) /\ map fst det = zseq (pr_week p) n.
+  Proof.
+    induction n as [|n IH]; intros h s p h' s' p' det Ht; simpl claim_weeks.
+    - intros Heq; inversion Heq; subst. split; [apply sbr_refl|]. split; [rewrite adv_0; reflexivity | reflexivity].
+    - intros Heq. apply bind_ok in Heq. destruct Heq as ([[[h1 s1] p1] r] & Hs & Heq).
+      apply bind_ok in Heq. destruct Heq as ([[[h2 s2] p2] rs] & Hr & Heq). inversion Heq; subst.
+      unfold claim_single in Hs. apply bind_ok in Hs. destruct Hs as ([[hx sx] rx] & Hh & Hs). inversion Hs; subst.
+      rewrite advance_week_adv in Hr by assumption.
+      destruct (IH _ _ _ _ _ _ _ (eq_ind _ (fun x => 0 <= x) Ht _ (eq_sym (adv_tok p 1))) Hr) as (Hf & Hp & Hm).
+      split; [eapply sbr_trans; [eapply hook_frame; exact Hh | exact Hf]|].
+      split; [rewrite Hp, adv_adv; f_equal; lia|].
+      simpl. rewrite Hm. reflexivity.
+  Qed.
+End ClaimLoop.
+
+(** ------------------------------------------------------------------ what a user touch leaves alone *)
+Lemma shift_buckets_ok_frame n : forall f bt bs T E f' bt' bs' T' E',
+  shift_buckets n f bt bs T E = Ok (f', bt', bs', T', E') -> f' = f + Z.of_nat n.
+Proof.
+  induction n as [|n IH]; intros f bt bs T E f' bt' bs' T' E'; simpl shift_buckets.
+  - intros Heq; inversion Heq; lia.
+  - intros Heq. apply bind_ok in Heq. destruct Heq as (t' & _ & Heq). apply IH in Heq. lia.
+Qed.
+
+Definition cleared_week (cw : Z) : Z := cw - MAXW - 1.
+
+Lemma perform_weekly_update_frame s cw s1 :
+  perform_weekly_update s cw = Ok s1 ->
+  w_prog s1 = w_prog s /\ w_last s1 = cw /\
+  (forall w, w <> cw -> w <> cleared_week cw -> aget (w_energy s1) w = aget (w_energy s) w) /\
+  (forall w, w <> cleared_week cw -> rget (w_rewards s1) w = rget (w_rewards s) w).
+Proof.
+  unfold perform_weekly_update, cleared_week.
+  destruct (w_last s =? cw) eqn:E1.
+  - intros Heq; inversion Heq; subst. apply Z.eqb_eq in E1. repeat split; auto.
+  - destruct (w_last s =? 0) eqn:E2.
+    + intros Heq; inversion Heq; subst. simpl. repeat split; auto.
+    + destruct (w_last s <=? cw) eqn:E3; [|discriminate].
+      intros Heq. apply bind_ok in Heq. destruct Heq as ([[[[f bt] bs] tt'] te'] & Hsh & Heq).
+      destruct (MAXW + 1 <? cw) eqn:E4; inversion Heq; subst; simpl.
+      * split; [reflexivity|]. split; [reflexivity|]. split.
+        -- intros w Hw Hc. rewrite aget_aset_other by lia. rewrite aget_aset_other by lia. reflexivity.
+        -- intros w Hc. apply rget_rset_other. lia.
+      * split; [reflexivity|]. split; [reflexivity|]. split.
+        -- intros w Hw Hc. rewrite aget_aset_other by lia. reflexivity.
+        -- intros w Hc. reflexivity.
+Qed.
+
+Lemma reallocate_bucket_frame s a b c s' hp hc :
+  reallocate_bucket s a b c = Ok (s', hp, hc) ->
+  w_prog s' = w_prog s /\ w_energy s' = w_energy s /\ w_tokens s' = w_tokens s /\ w_last s' = w_last s /\
+  w_rewards s' = w_rewards s /\ w_first s' = w_first s.
+Proof.
+  unfold reallocate_bucket. intros Heq. apply bind_ok in Heq. destruct Heq as (s1 & Hs1 & Heq).
+  assert (Hf : w_prog s1 = w_prog s /\ w_energy s1 = w_energy s /\ w_tokens s1 = w_tokens s /\ w_last s1 = w_last s /\
+               w_rewards s1 = w_rewards s /\ w_first s1 = w_first s).
+  { destruct (bucket_id_for (w_first s) b).
+    - apply bind_ok in Hs1. destruct Hs1 as (t & _ & Hs1). apply bind_ok in Hs1. destruct Hs1 as (x & _ & Hs1).
+      inversion Hs1; subst. simpl. repeat split.
+    - inversion Hs1; subst. repeat split. }
+  destruct Hf as (f1 & f2 & f3 & f4 & f5 & f6).
+  inversion Heq; subst. destruct (bucket_id_for (w_first s1) c); simpl; repeat split; assumption.
+Qed.
+
+Lemma update_global_amounts_frame s cw la prev cur s1 :
+  update_global_amounts s cw la prev cur = Ok s1 ->
+  w_prog s1 = w_prog s /\ w_last s1 = cw /\
+  (forall w, w <> cw -> w <> cleared_week cw -> aget (w_energy s1) w = aget (w_energy s) w) /\
+  (forall w, w <> cleared_week cw -> rget (w_rewards s1) w = rget (w_rewards s) w).
+Proof.
+  unfold update_global_amounts. intros Heq. apply bind_ok in Heq. destruct Heq as (s0 & Hp & Heq).
+  destruct (la <=? cw); [|discriminate].
+  apply bind_ok in Heq. destruct Heq as ([[s2 hp] hc] & Hr & Heq).
+  apply bind_ok in Heq. destruct Heq as (tl' & _ & Heq).
+  apply bind_ok in Heq. destruct Heq as (te & _ & Heq). inversion Heq; subst; clear Heq.
+  destruct (perform_weekly_update_frame _ _ _ Hp) as (p1 & p2 & p3 & p4).
+  destruct (reallocate_bucket_frame _ _ _ _ _ _ _ Hr) as (r1 & r2 & r3 & r4 & r5 & r6).
+  simpl. split; [congruence|]. split; [congruence|]. split.
+  - intros w Hw Hc. rewrite aget_aset_other by lia. rewrite r2. apply p3; assumption.
+  - intros w Hc. rewrite r5. apply p4; assumption.
+Qed.
+
+Lemma update_user_energy_frame s cw cur op s1 :
+  update_user_energy s cw cur op = Ok s1 ->
+  w_prog s1 = w_prog s /\ w_last s1 = cw /\
+  (forall w, w <> cw -> w <> cleared_week cw -> aget (w_energy s1) w = aget (w_energy s) w) /\
+  (forall w, w <> cleared_week cw -> rget (w_rewards s1) w = rget (w_rewards s) w).
+Proof.
+  unfold update_user_energy. destruct op as [p|]; apply update_global_amounts_frame.
+Qed.
+
+(** ------------------------------------------------------------------ claim_multi: the window *)
+Definition first_claim_week (p : progress) (cw : Z) : Z := Z.max (pr_week p) (cw - MAXW).
+Definition nr_claim_weeks (p : progress) (cw : Z) : nat := Z.to_nat (Z.min (cw - pr_week p) MAXW).
+
+Definition progress_after (l : list (Z * progress)) (user cw : Z) (cur : en) : list (Z * progress) :=
+  if 0 <? en_amount cur then pset l user (mkProg cur cw) else pdel l user.
+
+Section ClaimMulti.
+  Variable H : Type.
+  Variable hook : H -> wstate -> Z -> Z -> Z -> result (H * wstate * list (Z * Z)).
+  Hypothesis hook_frame : forall h s w e E h' s' r, hook h s w e E = Ok (h', s', r) -> same_but_rewards s s'.
+
+  (** a claim at week [cw] processes exactly the weeks max(progress.week, cw-4) .. cw-1, in order, starting
+      from the recorded entry decayed to the first of them; then the progress is (current energy, cw),
+      or empty if the current energy is zero.  A user without progress claims nothing. *)
+  Lemma claim_multi_spec h s user cw cur h' s' det :
+    (forall p, pfind (w_prog s) user = Some p -> 0 <= en_tok (pr_en p)) ->
+    claim_multi H hook h s user cw cur = Ok (h', s', det) ->
+    exists s1 s2,
+      update_user_energy s cw cur (pfind (w_prog s) user) = Ok s1 /\
+      same_but_rewards s1 s2 /\
+      s' = store_progress s2 user cw cur /\
+      w_prog s' = progress_after (w_prog s) user cw cur /\
+      match pfind (w_prog s) user with
+      | None => det = [] /\ h' = h /\ s2 = s1
+      | Some p =>
+          pr_week p <= cw /\
+          map fst det = zseq (first_claim_week p cw) (nr_claim_weeks p cw) /\
+          claim_weeks H hook (nr_claim_weeks p cw) h s1 (adv p (first_claim_week p cw - pr_week p))
+            = Ok (h', s2, adv p (cw - pr_week p), det)
+      end.
+  Proof.
+    intros Hwf. unfold claim_multi. intros Heq.
+    apply bind_ok in Heq. destruct Heq as (s1 & Hu & Heq).
+    pose proof max_weeks_nonneg as HM.
+    destruct (pfind (w_prog s) user) as [p|] eqn:Ep.
+    - specialize (Hwf p eq_refl).
+      destruct (pr_week p <=? cw) eqn:Ew; [|discriminate]. apply Z.leb_le in Ew.
+      apply bind_ok in Heq. destruct Heq as ([[[h2 s2] p2] det2] & Hc & Heq). inversion Heq; subst; clear Heq.
+      assert (Hcp : (if MAXW <? cw - pr_week p then advance_multiple_weeks p (cw - pr_week p - MAXW) else p)
+                    = adv p (first_claim_week p cw - pr_week p)).
+      { unfold first_claim_week. destruct (MAXW <? cw - pr_week p) eqn:Em.
+        - apply Z.ltb_lt in Em. rewrite advance_multiple_adv by lia. f_equal. lia.
+        - apply Z.ltb_ge in Em. replace (Z.max (pr_week p) (cw - MAXW) - pr_week p) with 0 by lia.
+          rewrite adv_0. reflexivity. }
+      rewrite Hcp in Hc. fold (nr_claim_weeks p cw) in Hc.
+      pose proof (claim_weeks_frame H hook hook_frame _ _ _ _ _ _ _ _
+                    (eq_ind _ (fun x => 0 <= x) Hwf _ (eq_sym (adv_tok p _))) Hc) as (Hf & Hp2 & Hm).
+      exists s1, s2. split; [exact Hu|]. split; [exact Hf|]. split; [reflexivity|]. split.
+      + destruct (update_user_energy_frame _ _ _ _ _ Hu) as (u1 & _). destruct Hf as (f1 & _).
+        unfold store_progress, progress_after. destruct (0 <? en_amount cur); simpl; congruence.
+      + split; [exact Ew|]. split.
+        * rewrite Hm. rewrite adv_week. f_equal. unfold first_claim_week. lia.
+        * rewrite Hc, Hp2, adv_adv.
+          replace (first_claim_week p cw - pr_week p + Z.of_nat (nr_claim_weeks p cw)) with (cw - pr_week p);
+            [reflexivity|].
+          unfold nr_claim_weeks, first_claim_week. lia.
+    - simpl in Heq. rewrite Z.leb_refl in Heq. rewrite Z.sub_diag in Heq.
+      destruct (MAXW <? 0) eqn:Em; [apply Z.ltb_lt in Em; lia|].
+      rewrite Z.min_l in Heq by lia. simpl in Heq. inversion Heq; subst; clear Heq.
+      exists s1, s1. split; [exact Hu|]. split; [apply sbr_refl|]. split; [reflexivity|]. split.
+      + destruct (update_user_energy_frame _ _ _ _ _ Hu) as (u1 & _).
+        unfold store_progress, progress_after. destruct (0 <? en_amount cur); simpl; congruence.
+      + repeat split.
+  Qed.
+End ClaimMulti.
+
+(** ================================================================== Part B: the fees collector *)
+
+Lemma fc_hook_frame h s w e E h' s' r : fc_hook h s w e E = Ok (h', s', r) -> same_but_rewards s s'.
+Proof. intros Hh. apply (default_hook_spec _ _ _ _ _ _ _ _ _ _ Hh). Qed.
+
+Lemma decay_amt_adv p k w : decay_amt (adv p k) w = decay_amt p w.
+Proof. unfold decay_amt, adv; simpl. ring. Qed.
+
+Lemma energy_at_adv p k w : energy_at (adv p k) w = energy_at p w.
+Proof. unfold energy_at. rewrite decay_amt_adv. reflexivity. Qed.
+
+Lemma en_amount_energy_at p : en_amount (pr_en p) = energy_at p (pr_week p).
+Proof. rewrite en_amount_max. unfold energy_at, decay_amt. f_equal. lia. Qed.
+
+(** the share a week's claim pays: nothing without energy or without a total, otherwise the floor shares
+    of the week's (now frozen) total rewards *)
+Definition week_share (tot : list (Z * Z)) (e E : Z) : list (Z * Z) :=
+  if (e =? 0) || (E =? 0) then [] else shares tot e E.
+
+Lemma fc_claim_weeks_shares n : forall h s p h' s' p' det,
+  0 <= en_tok (pr_en p) ->
+  claim_weeks fhost fc_hook n h s p = Ok (h', s', p', det) ->
+  (forall w r, In (w, r) det ->
+     r = week_share (rget (w_rewards s') w) (energy_at p w) (aget (w_energy s) w)) /\
+  (forall w, ~ In w (zseq (pr_week p) n) -> rget (w_rewards s') w = rget (w_rewards s) w) /\
+  (forall w, rget (w_rewards s) w <> [] -> rget (w_rewards s') w = rget (w_rewards s) w).
+Proof.
+  induction n as [|n IH]; intros h s p h' s' p' det Ht; simpl claim_weeks.
+  - intros Heq; inversion Heq; subst. split; [intros w r []|]. split; reflexivity.
+  - intros Heq. apply bind_ok in Heq. destruct Heq as ([[[h1 s1] p1] r0] & Hs & Heq).
+    apply bind_ok in Heq. destruct Heq as ([[[h2 s2] p2] rs] & Hr & Heq). inversion Heq; subst; clear Heq.
+    unfold claim_single in Hs. apply bind_ok in Hs. destruct Hs as ([[hx sx] rx] & Hh & Hs). inversion Hs; subst; clear Hs.
+    rewrite advance_week_adv in Hr by assumption.
+    destruct (default_hook_spec _ _ _ _ _ _ _ _ _ _ Hh) as (Hf & Hoth & Hr0 & Hfz & _).
+    assert (Ht1 : 0 <= en_tok (pr_en (adv p 1))) by (rewrite adv_tok; exact Ht).
+    destruct (IH _ _ _ _ _ _ _ Ht1 Hr) as (IH1 & IH2 & IH3).
+    assert (Hw0 : rget (w_rewards s') (pr_week p) = rget (w_rewards s1) (pr_week p)).
+    { apply IH2. rewrite adv_week, zseq_in. lia. }
+    destruct Hf as (_ & Hen & _).
+    split; [|split].
+    + intros w r [Heq|Hin].
+      * inversion Heq; subst. rewrite Hw0, <- en_amount_energy_at. reflexivity.
+      * rewrite (IH1 _ _ Hin), energy_at_adv, Hen. reflexivity.
+    + intros w Hn. simpl in Hn. rewrite IH2.
+      * apply Hoth. intros ->. apply Hn. left; reflexivity.
+      * rewrite adv_week. intros Hin. apply Hn. right; exact Hin.
+    + intros w Hne. destruct (Z.eq_dec w (pr_week p)) as [->|Hw].
+      * rewrite Hw0. apply Hfz. exact Hne.
+      * rewrite IH3; [apply Hoth; exact Hw | rewrite Hoth by exact Hw; exact Hne].
+Qed.
+
+(** ------------------------------------------------------------------ well-formedness of collector states *)
+Definition prog_ok (cw : Z) (up : Z * progress) : Prop :=
+  0 <= en_tok (pr_en (snd up)) /\ pr_week (snd up) <= cw.
+
+Definition FWf (f : fc) : Prop :=
+  exists cw, current_week f = Ok cw /\
+             Forall (prog_ok cw) (w_prog (fc_w f)) /\
+             Forall (fun ue => 0 <= en_tok (snd ue)) (fc_factory f) /\
+             NoDup (h_tokens (fc_h f)).
+
+Lemma pfind_in l u p : pfind l u = Some p -> In (u, p) l.
+Proof.
+  induction l as [|[u' p'] t IH]; simpl; [discriminate|].
+  destruct (u' =? u) eqn:E.
+  - apply Z.eqb_eq in E. intros Heq; inversion Heq; subst. left; reflexivity.
+  - intros Hf. right. apply IH. exact Hf.
+Qed.
+
+Lemma Forall_pset (P : Z * progress -> Prop) l u p : Forall P l -> P (u, p) -> Forall P (pset l u p).
+Proof.
+  induction l as [|[u' p'] t IH]; simpl; intros Hl Hp.
+  - constructor; [exact Hp | constructor].
+  - inversion Hl; subst. destruct (u' =? u); constructor; auto.
+Qed.
+
+Lemma Forall_pdel (P : Z * progress -> Prop) l u : Forall P l -> Forall P (pdel l u).
+Proof.
+  unfold pdel. induction l as [|[u' p'] t IH]; simpl; intros Hl; [constructor|].
+  inversion Hl; subst. destruct (u' =? u); simpl; [auto | constructor; auto].
+Qed.
+
+Lemma Forall_progress_after (P : Z * progress -> Prop) l u cw cur :
+  Forall P l -> P (u, mkProg cur cw) -> Forall P (progress_after l u cw cur).
+Proof.
+  intros Hl Hp. unfold progress_after. destruct (0 <? en_amount cur); [apply Forall_pset | apply Forall_pdel]; assumption.
+Qed.
+
+Lemma efind_in l u e : efind l u = Some e -> In (u, e) l.
+Proof.
+  induction l as [|[u' e'] t IH]; simpl; [discriminate|].
+  destruct (u' =? u) eqn:E.
+  - apply Z.eqb_eq in E. intros Heq; inversion Heq; subst. left; reflexivity.
+  - intros Hf. right. apply IH. exact Hf.
+Qed.
+
+Lemma Forall_eset (P : Z * en -> Prop) l u e : Forall P l -> P (u, e) -> Forall P (eset l u e).
+Proof.
+  induction l as [|[u' e'] t IH]; simpl; intros Hl Hp.
+  - constructor; [exact Hp | constructor].
+  - inversion Hl; subst. destruct (u' =? u); constructor; auto.
+Qed.
+
+Lemma en_deplete_tok e ep : en_tok (en_deplete e ep) = en_tok e.
+Proof. unfold en_deplete. destruct (en_epoch e =? ep); reflexivity. Qed.
+
+Lemma energy_entry_tok f u : Forall (fun ue => 0 <= en_tok (snd ue)) (fc_factory f) -> 0 <= en_tok (energy_entry f u).
+Proof.
+  intros Hall. unfold energy_entry. destruct (efind (fc_factory f) u) as [e|] eqn:E.
+  - rewrite en_deplete_tok. apply efind_in in E. rewrite Forall_forall in Hall. apply (Hall _ E).
+  - simpl. lia.
+Qed.
+
+Lemma week_for_epoch_mono fe e1 e2 w1 : week_for_epoch fe e1 = Ok w1 -> e1 <= e2 ->
+  exists w2, week_for_epoch fe e2 = Ok w2 /\ w1 <= w2.
+Proof.
+  unfold week_for_epoch. destruct (fe <=? e1) eqn:E1; [|discriminate]. apply Z.leb_le in E1.
+  intros Heq Hle. inversion Heq; subst; clear Heq.
+  assert (E2 : (fe <=? e2) = true) by (apply Z.leb_le; lia). rewrite E2.
+  eexists; split; [reflexivity|].
+  pose proof week_pos. pose proof (Z.div_le_mono (e1 - fe) (e2 - fe) WK). lia.
+Qed.
+
+Lemma week_for_epoch_pos fe e w : week_for_epoch fe e = Ok w -> 1 <= w.
+Proof.
+  unfold week_for_epoch. destruct (fe <=? e) eqn:E1; [|discriminate]. apply Z.leb_le in E1.
+  intros Heq; inversion Heq. pose proof week_pos. pose proof (Z.div_pos (e - fe) WK). lia.
+Qed.
+
+Lemma prog_ok_mono cw cw' up : cw <= cw' -> prog_ok cw up -> prog_ok cw' up.
+Proof. unfold prog_ok. intros; lia. Qed.
+
+(** who a claim / energy update is for *)
+Definition claim_user (c : Z) (orig : option Z) : Z := match orig with Some u => u | None => c end.
+
+(** ------------------------------------------------------------------ the claim endpoint, characterised *)
+Lemma accumulate_additional_w f cw : fc_w (accumulate_additional f cw) = fc_w f.
+Proof. unfold accumulate_additional. destruct (fc_lock_week f =? cw); reflexivity. Qed.
+
+Lemma accumulate_additional_env f cw :
+  fc_epoch (accumulate_additional f cw) = fc_epoch f /\ fc_first_epoch (accumulate_additional f cw) = fc_first_epoch f /\
+  fc_factory (accumulate_additional f cw) = fc_factory f /\ fc_bal (accumulate_additional f cw) = fc_bal f /\
+  h_tokens (fc_h (accumulate_additional f cw)) = h_tokens (fc_h f).
+Proof. unfold accumulate_additional. destruct (fc_lock_week f =? cw); simpl; repeat split. Qed.
+
+Lemma energy_entry_accumulate f cw u : energy_entry (accumulate_additional f cw) u = energy_entry f u.
+Proof.
+  unfold energy_entry. destruct (accumulate_additional_env f cw) as (-> & _ & -> & _). reflexivity.
+Qed.
+
+Lemma store_progress_rewards s u cw cur : w_rewards (store_progress s u cw cur) = w_rewards s.
+Proof. unfold store_progress. destruct (0 <? en_amount cur); reflexivity. Qed.
+
+Lemma store_progress_prog s u cw cur : w_prog (store_progress s u cw cur) = progress_after (w_prog s) u cw cur.
+Proof. unfold store_progress, progress_after. destruct (0 <? en_amount cur); reflexivity. Qed.
+
+Lemma store_progress_energy s u cw cur : w_energy (store_progress s u cw cur) = w_energy s.
+Proof. unfold store_progress. destruct (0 <? en_amount cur); reflexivity. Qed.
+
+(** [claim_rewards f dest user]: exactly the weeks of the window, each paying the floor share of that week's
+    total with the user's recorded energy decayed to the week and the week's total energy *)
+Lemma claim_rewards_char f dest user f' outs det :
+  FWf f -> claim_rewards f dest user = Ok (f', outs, det) ->
+  exists cw, current_week f = Ok cw /\
+    match view_progress f user with
+    | None => det = []
+    | Some p =>
+        pr_week p <= cw /\
+        map fst det = zseq (first_claim_week p cw) (nr_claim_weeks p cw) /\
+        (forall w r, In (w, r) det ->
+           r = week_share (view_total_rewards f' w) (energy_at p w) (view_total_energy f w))
+    end /\
+    w_prog (fc_w f') = progress_after (w_prog (fc_w f)) user cw (energy_entry f user) /\
+    outs = unlocked_part (flat_rewards det) ++ (if 0 <? locked_total (flat_rewards det) then [(LOCKED, locked_total (flat_rewards det))] else []) /\
+    pay_out (fc_bal f) (unlocked_part (flat_rewards det)) = Ok (fc_bal f').
+Proof.
+  intros (cw0 & Hcw & Hprog & Hfac & _). unfold claim_rewards. rewrite Hcw. simpl bind.
+  intros Heq. apply bind_ok in Heq. destruct Heq as ([[h2 w2] det2] & Hcm & Heq).
+  apply bind_ok in Heq. destruct Heq as (bal' & Hpay & Heq). inversion Heq; subst; clear Heq.
+  exists cw0. split; [reflexivity|].
+  rewrite accumulate_additional_w, energy_entry_accumulate in Hcm.
+  assert (Hwfu : forall p, pfind (w_prog (fc_w f)) user = Some p -> 0 <= en_tok (pr_en p)).
+  { intros p Hp. apply pfind_in in Hp. rewrite Forall_forall in Hprog. apply (Hprog _ Hp). }
+  destruct (claim_multi_spec fhost fc_hook fc_hook_frame _ _ _ _ _ _ _ _ Hwfu Hcm)
+    as (s1 & s2 & Hu & Hsbr & Hs' & Hpa & Hm).
+  destruct (accumulate_additional_env f cw0) as (_ & _ & _ & Hbal & _).
+  unfold view_progress, view_total_rewards, view_total_energy. simpl fc_w. simpl fc_bal.
+  split; [|split; [exact Hpa | split; [reflexivity | rewrite <- Hbal; exact Hpay]]].
+  destruct (pfind (w_prog (fc_w f)) user) as [p|] eqn:Ep.
+  - destruct Hm as (Hle & Hmap & Hcw2). split; [exact Hle|]. split; [exact Hmap|].
+    intros w r Hin.
+    assert (Htp : 0 <= en_tok (pr_en (adv p (first_claim_week p cw0 - pr_week p)))) by (rewrite adv_tok; apply Hwfu; reflexivity).
+    destruct (fc_claim_weeks_shares _ _ _ _ _ _ _ _ Htp Hcw2) as (Hsh & _ & _).
+    rewrite (Hsh _ _ Hin), energy_at_adv, Hs', store_progress_rewards.
+    assert (Hwin : In w (zseq (first_claim_week p cw0) (nr_claim_weeks p cw0))).
+    { rewrite <- Hmap. apply (in_map fst) in Hin. exact Hin. }
+    apply zseq_in in Hwin. unfold first_claim_week, nr_claim_weeks in Hwin.
+    destruct (update_user_energy_frame _ _ _ _ _ Hu) as (_ & _ & Hen & _).
+    pose proof max_weeks_nonneg.
+    rewrite Hen; [reflexivity | lia | unfold cleared_week; lia].
+  - destruct Hm as (-> & _). reflexivity.
+Qed.
+
+(** ------------------------------------------------------------------ collecting a week's deposits *)
+Lemma acc_get_set_same h w t v : acc_get (acc_set h w t v) w t = v.
+Proof. unfold acc_get, acc_set; simpl. rewrite rget_rset_same, aget_aset_same. reflexivity. Qed.
+
+Lemma acc_get_set_other h w t v w' t' : (w <> w' \/ t <> t') -> acc_get (acc_set h w t v) w' t' = acc_get h w' t'.
+Proof.
+  unfold acc_get, acc_set; simpl. intros Hne. destruct (Z.eq_dec w w') as [->|Hw].
+  - rewrite rget_rset_same. destruct Hne as [Hc|Ht]; [contradiction|]. apply aget_aset_other. exact Ht.
+  - rewrite rget_rset_other by exact Hw. reflexivity.
+Qed.
+
+Definition positive_part (l : list (Z * Z)) : list (Z * Z) := filter (fun p => 0 <? snd p) l.
+
+Lemma collect_tokens_spec w toks : forall h h' r, NoDup toks ->
+  collect_tokens h w toks = (h', r) ->
+  r = positive_part (map (fun t => (t, acc_get h w t)) toks) /\
+  (forall t, In t toks -> acc_get h' w t = 0) /\
+  (forall w' t', (w' <> w \/ ~ In t' toks) -> acc_get h' w' t' = acc_get h w' t') /\
+  h_tokens h' = h_tokens h.
+Proof.
+  induction toks as [|t tl IH]; intros h h' r Hnd; simpl.
+  - intros Heq; inversion Heq; subst. repeat split; auto. intros t [].
+  - inversion Hnd as [|? ? Hnin Hnd']; subst.
+    destruct (collect_tokens (acc_set h w t 0) w tl) as [h1 r1] eqn:Ec.
+    intros Heq; inversion Heq; subst; clear Heq.
+    destruct (IH _ _ _ Hnd' Ec) as (Hr & Hz & Ho & Ht).
+    split; [|split; [|split]].
+    + unfold positive_part in *. simpl. rewrite Hr.
+      assert (Hmap : map (fun t0 => (t0, acc_get (acc_set h w t 0) w t0)) tl = map (fun t0 => (t0, acc_get h w t0)) tl).
+      { apply map_ext_in. intros a Ha. f_equal. apply acc_get_set_other. right. intros ->. contradiction. }
+      rewrite Hmap. reflexivity.
+    + intros t0 [->|Hin]; [|apply Hz; exact Hin].
+      rewrite Ho by (right; exact Hnin). apply acc_get_set_same.
+    + intros w' t' Hne. rewrite Ho.
+      * apply acc_get_set_other. destruct Hne as [Hw|Hn]; [left; congruence | right; intros ->; apply Hn; left; reflexivity].
+      * destruct Hne as [Hw|Hn]; [left; exact Hw | right; intros Hin; apply Hn; right; exact Hin].
+    + rewrite Ht. reflexivity.
+Qed.
+
+Lemma collect_tokens_frame w toks : forall h h' r,
+  collect_tokens h w toks = (h', r) ->
+  h_tokens h' = h_tokens h /\ (forall w' t, w' <> w -> acc_get h' w' t = acc_get h w' t).
+Proof.
+  induction toks as [|t tl IH]; intros h h' r; simpl.
+  - intros Heq; inversion Heq; subst. split; reflexivity.
+  - destruct (collect_tokens (acc_set h w t 0) w tl) as [h2 r2] eqn:Ec2.
+    intros Heq; inversion Heq; subst. destruct (IH _ _ _ Ec2) as (Ht & Ha).
+    split; [rewrite Ht; reflexivity|]. intros w' t' Hw. rewrite Ha by exact Hw.
+    apply acc_get_set_other. left. congruence.
+Qed.
+
+Lemma fc_hook_tokens h s w e E h' s' r : fc_hook h s w e E = Ok (h', s', r) ->
+  h_tokens h' = h_tokens h /\ (forall w' t, w' <> w -> acc_get h' w' t = acc_get h w' t).
+Proof.
+  unfold fc_hook, default_user_rewards. destruct ((e =? 0) || (E =? 0)).
+  - intros Heq; inversion Heq; subst. split; reflexivity.
+  - unfold collect_and_get. destruct (rget (w_rewards s) w).
+    + destruct (fc_collect h w) as [h1 r1] eqn:Ec. intros Heq; inversion Heq; subst.
+      unfold fc_collect in Ec. apply (collect_tokens_frame _ _ _ _ _ Ec).
+    + intros Heq; inversion Heq; subst. split; reflexivity.
+Qed.
+
+Lemma fc_claim_weeks_host n : forall h s p h' s' p' det,
+  claim_weeks fhost fc_hook n h s p = Ok (h', s', p', det) ->
+  h_tokens h' = h_tokens h /\
+  (forall w t, ~ In w (map fst det) -> acc_get h' w t = acc_get h w t).
+Proof.
+  induction n as [|n IH]; intros h s p h' s' p' det; simpl claim_weeks.
+  - intros Heq; inversion Heq; subst. split; reflexivity.
+  - intros Heq. apply bind_ok in Heq. destruct Heq as ([[[h1 s1] p1] r0] & Hs & Heq).
+    apply bind_ok in Heq. destruct Heq as ([[[h2 s2] p2] rs] & Hr & Heq). inversion Heq; subst; clear Heq.
+    unfold claim_single in Hs. apply bind_ok in Hs. destruct Hs as ([[hx sx] rx] & Hh & Hs). inversion Hs; subst; clear Hs.
+    destruct (fc_hook_tokens _ _ _ _ _ _ _ _ Hh) as (Ht & Ha). destruct (IH _ _ _ _ _ _ _ Hr) as (IHt & IHa).
+    split; [congruence|]. intros w t Hn. simpl in Hn. rewrite IHa by (intros Hin; apply Hn; right; exact Hin).
+    apply Ha. intros ->. apply Hn. left; reflexivity.
+Qed.
+
+(** ------------------------------------------------------------------ well-formedness is preserved *)
+Lemma FWf_frame f f' :
+  fc_first_epoch f' = fc_first_epoch f -> fc_epoch f' = fc_epoch f -> w_prog (fc_w f') = w_prog (fc_w f) ->
+  fc_factory f' = fc_factory f -> h_tokens (fc_h f') = h_tokens (fc_h f) -> FWf f -> FWf f'.
+Proof.
+  intros H1 H2 H3 H4 H5 (cw & Hcw & Hp & Hf & Ht). exists cw. unfold current_week in *. rewrite H1, H2, H3, H4, H5.
+  repeat split; assumption.
+Qed.
+
+Lemma claim_rewards_env f dest user f' outs det :
+  claim_rewards f dest user = Ok (f', outs, det) ->
+  fc_first_epoch f' = fc_first_epoch f /\ fc_epoch f' = fc_epoch f /\ fc_factory f' = fc_factory f /\
+  h_tokens (fc_h f') = h_tokens (fc_h f) /\ fc_contracts f' = fc_contracts f /\ fc_wl f' = fc_wl f /\
+  fc_paused f' = fc_paused f /\ fc_allow f' = fc_allow f.
+Proof.
+  unfold claim_rewards. intros Heq. apply bind_ok in Heq. destruct Heq as (cw & _ & Heq).
+  apply bind_ok in Heq. destruct Heq as ([[h2 w2] det2] & Hcm & Heq).
+  apply bind_ok in Heq. destruct Heq as (bal' & _ & Heq). inversion Heq; subst; clear Heq. simpl.
+  unfold claim_multi in Hcm. apply bind_ok in Hcm. destruct Hcm as (s1 & _ & Hcm).
+  destruct (pr_week _ <=? cw); [|discriminate].
+  apply bind_ok in Hcm. destruct Hcm as ([[[h3 s3] p3] d3] & Hcw & Hcm). inversion Hcm; subst; clear Hcm.
+  destruct (fc_claim_weeks_host _ _ _ _ _ _ _ _ Hcw) as (Ht & _).
+  unfold accumulate_additional in *. destruct (fc_lock_week f =? cw); simpl in *; repeat split; try assumption.
+Qed.
+
+Lemma claim_rewards_wf f dest user f' outs det :
+  FWf f -> claim_rewards f dest user = Ok (f', outs, det) -> FWf f'.
+Proof.
+  intros Hwf Hc. destruct (claim_rewards_char _ _ _ _ _ _ Hwf Hc) as (cw & Hcw & _ & Hpa & _).
+  destruct (claim_rewards_env _ _ _ _ _ _ Hc) as (e1 & e2 & e3 & e4 & _).
+  destruct Hwf as (cw0 & Hcw0 & Hp & Hf & Ht). rewrite Hcw in Hcw0. inversion Hcw0; subst cw0.
+  exists cw. unfold current_week in *. rewrite e1, e2, e3, e4, Hpa.
+  split; [exact Hcw|]. split; [|split; assumption].
+  apply Forall_progress_after; [exact Hp|]. unfold prog_ok; simpl. split; [apply energy_entry_tok; exact Hf | lia].
+Qed.
+
+Lemma update_energy_wf f c u f' outs det :
+  FWf f -> ep_update_energy f c u = Ok (f', outs, det) -> FWf f'.
+Proof.
+  intros (cw & Hcw & Hp & Hf & Ht). unfold ep_update_energy. rewrite Hcw. simpl bind.
+  intros Heq. apply bind_ok in Heq. destruct Heq as (w' & Hu & Heq). inversion Heq; subst; clear Heq.
+  unfold update_energy_for_user in Hu. destruct (match pfind _ u with Some p => pr_week p =? cw | None => true end); [|discriminate].
+  unfold update_energy_and_progress in Hu. apply bind_ok in Hu. destruct Hu as (s1 & Hu & Heq). inversion Heq; subst; clear Heq.
+  destruct (update_user_energy_frame _ _ _ _ _ Hu) as (u1 & _).
+  exists cw. unfold current_week in *. simpl. rewrite store_progress_prog, u1.
+  split; [exact Hcw|]. split; [|split; assumption].
+  apply Forall_progress_after; [exact Hp|]. unfold prog_ok; simpl. split; [apply energy_entry_tok; exact Hf | lia].
+Qed.
+
+Lemma NoDup_snoc (x : Z) l : NoDup l -> ~ In x l -> NoDup (l ++ [x]).
+Proof.
+  induction l as [|y t IH]; simpl; intros Hnd Hn.
+  - constructor; [intros [] | constructor].
+  - inversion Hnd; subst. constructor.
+    + rewrite in_app_iff. intros [Hi|[->|[]]]; [contradiction | apply Hn; left; reflexivity].
+    + apply IH; [assumption | intros Hi; apply Hn; right; exact Hi].
+Qed.
+
+Lemma NoDup_remove_z x l : NoDup l -> NoDup (remove_z x l).
+Proof. unfold remove_z. apply NoDup_filter. Qed.
+
+Lemma mem_in x l : mem x l = true <-> In x l.
+Proof.
+  unfold mem. rewrite existsb_exists. split.
+  - intros (y & Hy & He). apply Z.eqb_eq in He. subst. exact Hy.
+  - intros Hin. exists x. split; [exact Hin | apply Z.eqb_refl].
+Qed.
+
+Lemma step_wf f op f' outs det : FWf f -> step f op = Ok (f', outs, det) -> FWf f'.
+Proof.
+  intros Hwf. destruct op; simpl.
+  - (* Advance *)
+    unfold ep_advance. destruct (0 <=? n) eqn:En; [|discriminate]. apply Z.leb_le in En.
+    intros Heq; inversion Heq; subst; clear Heq. destruct Hwf as (cw & Hcw & Hp & Hf & Ht).
+    unfold current_week in *. simpl.
+    destruct (week_for_epoch_mono _ _ (fc_epoch f + n) _ Hcw ltac:(lia)) as (cw2 & Hcw2 & Hle).
+    exists cw2. split; [exact Hcw2|]. split; [|split; assumption].
+    eapply Forall_impl; [|exact Hp]. intros a. apply prog_ok_mono. exact Hle.
+  - (* SetEnergy *)
+    unfold ep_set_energy. destruct ((0 <=? amt) && (0 <=? tok)) eqn:Eg; [|discriminate].
+    apply andb_prop in Eg. destruct Eg as (_ & Eg). apply Z.leb_le in Eg.
+    intros Heq; inversion Heq; subst; clear Heq. destruct Hwf as (cw & Hcw & Hp & Hf & Ht).
+    exists cw. unfold current_week in *. simpl. repeat split; try assumption.
+    apply Forall_eset; [exact Hf | simpl; exact Eg].
+  - (* SetEnergyRaw *)
+    unfold ep_set_energy_raw. destruct ((0 <=? ep) && (0 <=? tok)) eqn:Eg; [|discriminate].
+    apply andb_prop in Eg. destruct Eg as (_ & Eg). apply Z.leb_le in Eg.
+    intros Heq; inversion Heq; subst; clear Heq. destruct Hwf as (cw & Hcw & Hp & Hf & Ht).
+    exists cw. unfold current_week in *. simpl. repeat split; try assumption.
+    apply Forall_eset; [exact Hf | simpl; exact Eg].
+  - (* Deposit *)
+    unfold ep_deposit. destruct ((0 <=? amt) && (0 <=? nonce)); [|discriminate].
+    destruct (mem c (fc_contracts f)); [|discriminate]. destruct (mem tok (h_tokens (fc_h f))); [|discriminate].
+    intros Heq. apply bind_ok in Heq. destruct Heq as (cw & _ & Heq).
+    apply bind_ok in Heq. destruct Heq as (f1 & Hf1 & Heq). inversion Heq; subst; clear Heq.
+    assert (Hwf1 : FWf f1).
+    { destruct (0 <? nonce).
+      - destruct (tok =? LOCKED); [|discriminate]. inversion Hf1; subst. exact Hwf.
+      - inversion Hf1; subst. eapply FWf_frame; [| | | | |exact Hwf]; reflexivity. }
+    eapply FWf_frame; [| | | | |exact Hwf1]; reflexivity.
+  - (* Claim *)
+    unfold ep_claim. destruct (negb (fc_paused f)); [|discriminate].
+    destruct boosted; destruct orig as [u|].
+    + destruct (mem u (fc_allow f)); [|discriminate]. apply claim_rewards_wf; exact Hwf.
+    + apply claim_rewards_wf; exact Hwf.
+    + destruct (mem c (fc_wl f)); [|discriminate]. apply claim_rewards_wf; exact Hwf.
+    + apply claim_rewards_wf; exact Hwf.
+  - apply update_energy_wf; exact Hwf.
+  - unfold ep_pause. destruct (owner_only c); [|discriminate]. intros Heq; inversion Heq; subst.
+    eapply FWf_frame; [| | | | |exact Hwf]; reflexivity.
+  - (* AddToken *)
+    unfold ep_add_token. destruct (owner_only c); [|discriminate]. intros Heq; inversion Heq; subst; clear Heq.
+    destruct Hwf as (cw & Hcw & Hp & Hf & Ht). exists cw. unfold current_week in *. simpl.
+    repeat split; try assumption. destruct (mem t (h_tokens (fc_h f))) eqn:Em; [exact Ht|].
+    apply NoDup_snoc; [exact Ht|]. intros Hx. apply mem_in in Hx. congruence.
+  - unfold ep_remove_token. destruct (owner_only c); [|discriminate]. intros Heq; inversion Heq; subst; clear Heq.
+    destruct Hwf as (cw & Hcw & Hp & Hf & Ht). exists cw. unfold current_week in *. simpl.
+    repeat split; try assumption. apply NoDup_remove_z. exact Ht.
+  - unfold ep_add_contract. destruct (owner_only c); [|discriminate]. destruct (is_sc a); [|discriminate].
+    intros Heq; inversion Heq; subst. eapply FWf_frame; [| | | | |exact Hwf]; reflexivity.
+  - unfold ep_remove_contract. destruct (owner_only c); [|discriminate].
+    intros Heq; inversion Heq; subst. eapply FWf_frame; [| | | | |exact Hwf]; reflexivity.
+  - unfold ep_wl_add. destruct (owner_only c); [|discriminate]. destruct (negb (mem a (fc_wl f))); [|discriminate].
+    intros Heq; inversion Heq; subst. eapply FWf_frame; [| | | | |exact Hwf]; reflexivity.
+  - unfold ep_wl_rm. destruct (owner_only c); [|discriminate]. destruct (mem a (fc_wl f)); [|discriminate].
+    intros Heq; inversion Heq; subst. eapply FWf_frame; [| | | | |exact Hwf]; reflexivity.
+  - unfold ep_set_per_block. destruct (owner_only c); [|discriminate]. destruct (0 <=? amt); [|discriminate].
+    intros Heq. apply bind_ok in Heq. destruct Heq as (cw & _ & Heq). inversion Heq; subst; clear Heq.
+    destruct (accumulate_additional_env f cw) as (e1 & e2 & e3 & _ & e5).
+    eapply FWf_frame; [| | | | |exact Hwf]; simpl; try assumption. rewrite accumulate_additional_w. reflexivity.
+Qed.
+
+Lemma init_wf epoch : FWf (init_fc epoch).
+Proof.
+  exists ((epoch - epoch) / WK + 1). unfold current_week, week_for_epoch; simpl. rewrite Z.leb_refl.
+  split; [reflexivity|]. split; [constructor|]. split; [constructor|].
+  constructor; [intros [] | constructor].
+Qed.
+
+Lemma step_total_wf f op : FWf f -> FWf (step_total f op).
+Proof.
+  intros Hwf. unfold step_total. destruct (step f op) as [[[f' o] d]|] eqn:E; [|exact Hwf].
+  eapply step_wf; eassumption.
+Qed.
+
+Lemma run_wf ops : forall f, FWf f -> FWf (run f ops).
+Proof.
+  unfold run. induction ops as [|op t IH]; intros f Hwf; simpl; [exact Hwf|].
+  apply IH. apply step_total_wf. exact Hwf.
+Qed.
+
+(** ------------------------------------------------------------------ operations that do not touch the
+    weekly state or the clock *)
+Definition quiet (op : fop) : bool :=
+  match op with Advance _ | Claim _ _ _ | UpdateEnergy _ _ => false | _ => true end.
+
+Lemma quiet_frame f op f' outs det : quiet op = true -> step f op = Ok (f', outs, det) ->
+  fc_w f' = fc_w f /\ fc_epoch f' = fc_epoch f /\ fc_first_epoch f' = fc_first_epoch f /\ det = [] /\ outs = [].
+Proof.
+  destruct op; simpl; try discriminate; intros _.
+  - unfold ep_set_energy. destruct ((0 <=? amt) && (0 <=? tok)); [|discriminate]. intros Heq; inversion Heq; subst. repeat split.
+  - unfold ep_set_energy_raw. destruct ((0 <=? ep) && (0 <=? tok)); [|discriminate]. intros Heq; inversion Heq; subst. repeat split.
+  - unfold ep_deposit. destruct ((0 <=? amt) && (0 <=? nonce)); [|discriminate].
+    destruct (mem c (fc_contracts f)); [|discriminate]. destruct (mem tok (h_tokens (fc_h f))); [|discriminate].
+    intros Heq. apply bind_ok in Heq. destruct Heq as (cw & _ & Heq).
+    apply bind_ok in Heq. destruct Heq as (f1 & Hf1 & Heq). inversion Heq; subst; clear Heq.
+    destruct (0 <? nonce).
+    + destruct (tok =? LOCKED); [|discriminate]. inversion Hf1; subst. repeat split.
+    + inversion Hf1; subst. repeat split.
+  - unfold ep_pause. destruct (owner_only c); [|discriminate]. intros Heq; inversion Heq; subst. repeat split.
+  - unfold ep_add_token. destruct (owner_only c); [|discriminate]. intros Heq; inversion Heq; subst. repeat split.
+  - unfold ep_remove_token. destruct (owner_only c); [|discriminate]. intros Heq; inversion Heq; subst. repeat split.
+  - unfold ep_add_contract. destruct (owner_only c); [|discriminate]. destruct (is_sc a); [|discriminate].
+    intros Heq; inversion Heq; subst. repeat split.
+  - unfold ep_remove_contract. destruct (owner_only c); [|discriminate]. intros Heq; inversion Heq; subst. repeat split.
+  - unfold ep_wl_add. destruct (owner_only c); [|discriminate]. destruct (negb (mem a (fc_wl f))); [|discriminate].
+    intros Heq; inversion Heq; subst. repeat split.
+  - unfold ep_wl_rm. destruct (owner_only c); [|discriminate]. destruct (mem a (fc_wl f)); [|discriminate].
+    intros Heq; inversion Heq; subst. repeat split.
+  - unfold ep_set_per_block. destruct (owner_only c); [|discriminate]. destruct (0 <=? amt); [|discriminate].
+    intros Heq. apply bind_ok in Heq. destruct Heq as (cw & _ & Heq). inversion Heq; subst; clear Heq. simpl.
+    destruct (accumulate_additional_env f cw) as (e1 & e2 & _). rewrite accumulate_additional_w. repeat split; assumption.
+Qed.
+
+(** the claim endpoint is [claim_rewards] for the resolved (receiver, user) *)
+Lemma ep_claim_inv f c orig boosted f' outs det :
+  ep_claim f c orig boosted = Ok (f', outs, det) ->
+  fc_paused f = false /\ exists dest, claim_rewards f dest (claim_user c orig) = Ok (f', outs, det).
+Proof.
+  unfold ep_claim. destruct (fc_paused f); simpl; [discriminate|]. intros Heq. split; [reflexivity|].
+  destruct boosted; destruct orig as [u|]; simpl.
+  - destruct (mem u (fc_allow f)); [|discriminate]. exists u. exact Heq.
+  - exists c. exact Heq.
+  - destruct (mem c (fc_wl f)); [|discriminate]. exists c. exact Heq.
+  - exists c. exact Heq.
+Qed.
+
+(** ------------------------------------------------------------------ at most once per (user, week) *)
+Definition cur_week (f : fc) : Z := (fc_epoch f - fc_first_epoch f) / WK + 1.
+
+Lemma current_week_cur f cw : current_week f = Ok cw -> cw = cur_week f.
+Proof.
+  unfold current_week, week_for_epoch, cur_week. destruct (fc_first_epoch f <=? fc_epoch f); [|discriminate].
+  intros Heq; inversion Heq; reflexivity.
+Qed.
+
+(** the first week a user can still be paid for: the recorded progress week, or — without a recorded
+    progress — the current week (a new entry starts there) *)
+Definition claimable_from (f : fc) (u : Z) : Z :=
+  match view_progress f u with Some p => pr_week p | None => cur_week f end.
+
+(** the (user, week) pairs a successful operation processes *)
+Definition events (op : fop) (det : detail) : list (Z * Z) :=
+  match op with
+  | Claim c orig _ => map (fun wr => (claim_user c orig, fst wr)) det
+  | _ => []
+  end.
+
+Fixpoint run_log (f : fc) (ops : list fop) : list (Z * Z) :=
+  match ops with
+  | [] => []
+  | op :: t => match step f op with
+               | Ok (f', _, det) => events op det ++ run_log f' t
+               | Err _ => run_log f t
+               end
+  end.
+
+Lemma progress_after_find l u cw cur u2 :
+  pfind (progress_after l u cw cur) u2 =
+  if u =? u2 then (if 0 <? en_amount cur then Some (mkProg cur cw) else None) else pfind l u2.
+Proof.
+  unfold progress_after. destruct (u =? u2) eqn:E.
+  - apply Z.eqb_eq in E. subst u2. destruct (0 <? en_amount cur); [apply pfind_pset_same | apply pfind_pdel_same].
+  - apply Z.eqb_neq in E. destruct (0 <? en_amount cur); [apply pfind_pset_other | apply pfind_pdel_other]; exact E.
+Qed.
+
+Lemma prog_ok_find f cw u p : Forall (prog_ok cw) (w_prog (fc_w f)) -> view_progress f u = Some p ->
+  0 <= en_tok (pr_en p) /\ pr_week p <= cw.
+Proof.
+  intros Hall Hf. apply pfind_in in Hf. rewrite Forall_forall in Hall. apply (Hall _ Hf).
+Qed.
+
+Lemma step_claimable f op f' outs det :
+  FWf f -> step f op = Ok (f', outs, det) ->
+  (forall u, claimable_from f u <= claimable_from f' u) /\
+  (forall u w, In (u, w) (events op det) -> claimable_from f u <= w < claimable_from f' u) /\
+  NoDup (events op det).
+Proof.
+  intros Hwf Hs. destruct (quiet op) eqn:Eq.
+  - destruct (quiet_frame _ _ _ _ _ Eq Hs) as (Hw & He & Hfe & -> & _).
+    assert (Hev : events op [] = []) by (destruct op; reflexivity). rewrite Hev.
+    split; [|split; [intros u w [] | constructor]].
+    intros u. unfold claimable_from, view_progress, cur_week. rewrite Hw, He, Hfe. lia.
+  - destruct op; try discriminate; simpl in Hs.
+    + (* Advance *)
+      unfold ep_advance in Hs. destruct (0 <=? n) eqn:En; [|discriminate]. apply Z.leb_le in En.
+      inversion Hs; subst; clear Hs. simpl. split; [|split; [intros u w [] | constructor]].
+      intros u. unfold claimable_from, view_progress, cur_week; simpl.
+      destruct (pfind (w_prog (fc_w f)) u); [lia|].
+      pose proof week_pos. pose proof (Z.div_le_mono (fc_epoch f - fc_first_epoch f) (fc_epoch f + n - fc_first_epoch f) WK). lia.
+    + (* Claim *)
+      destruct (ep_claim_inv _ _ _ _ _ _ _ Hs) as (_ & dest & Hc).
+      destruct (claim_rewards_char _ _ _ _ _ _ Hwf Hc) as (cw & Hcw & Hm & Hpa & _).
+      destruct (claim_rewards_env _ _ _ _ _ _ Hc) as (e1 & e2 & _).
+      destruct Hwf as (cw0 & Hcw0 & Hp & _). rewrite Hcw in Hcw0. inversion Hcw0; subst cw0.
+      pose proof (current_week_cur _ _ Hcw) as Hcur.
+      assert (Hcur' : cur_week f' = cw) by (unfold cur_week; rewrite e1, e2; symmetry; exact Hcur).
+      set (user := claim_user c orig) in *.
+      assert (Hfrom' : forall u, claimable_from f' u = if user =? u then cw else claimable_from f u).
+      { intros u. unfold claimable_from, view_progress. rewrite Hpa, progress_after_find.
+        destruct (user =? u); [destruct (0 <? en_amount _); [reflexivity | exact Hcur']|].
+        rewrite Hcur', <- Hcur. reflexivity. }
+      split; [|split].
+      * intros u. rewrite Hfrom'. destruct (user =? u) eqn:Eu; [|lia]. apply Z.eqb_eq in Eu. subst u.
+        unfold claimable_from. destruct (view_progress f user) as [p|] eqn:Ep; [|lia].
+        apply (prog_ok_find _ _ _ _ Hp Ep).
+      * intros u w Hin. simpl in Hin. apply in_map_iff in Hin. destruct Hin as ([w0 r] & Heq & Hin).
+        inversion Heq; subst; clear Heq. simpl. rewrite Hfrom', Z.eqb_refl.
+        unfold claimable_from. fold user. destruct (view_progress f user) as [p|] eqn:Ep.
+        -- destruct Hm as (Hle & Hmap & _). apply (in_map fst) in Hin. rewrite Hmap in Hin. apply zseq_in in Hin.
+           unfold first_claim_week, nr_claim_weeks in Hin. pose proof max_weeks_nonneg. simpl. lia.
+        -- subst det. destruct Hin.
+      * simpl. destruct (view_progress f user) as [p|] eqn:Ep.
+        -- destruct Hm as (_ & Hmap & _).
+           assert (Hnd : NoDup (map fst det)) by (rewrite Hmap; apply zseq_nodup).
+           clear - Hnd. induction det as [|[w r] tl IH]; simpl in *; [constructor|].
+           inversion Hnd; subst. constructor; [|apply IH; assumption].
+           intros Hin. apply in_map_iff in Hin. destruct Hin as ([w' r'] & Heq & Hin). inversion Heq; subst.
+           apply H1. apply (in_map fst) in Hin. exact Hin.
+        -- subst det. constructor.
+    + (* UpdateEnergy *)
+      unfold ep_update_energy in Hs. destruct Hwf as (cw & Hcw & Hp & _). rewrite Hcw in Hs. simpl bind in Hs.
+      apply bind_ok in Hs. destruct Hs as (w' & Hu & Hs). inversion Hs; subst; clear Hs.
+      split; [|split; [intros u0 w [] | constructor]].
+      unfold update_energy_for_user in Hu. destruct (match pfind _ u with Some p => pr_week p =? cw | None => true end); [|discriminate].
+      unfold update_energy_and_progress in Hu. apply bind_ok in Hu. destruct Hu as (s1 & Hu & Heq). inversion Heq; subst; clear Heq.
+      destruct (update_user_energy_frame _ _ _ _ _ Hu) as (u1 & _).
+      pose proof (current_week_cur _ _ Hcw) as Hcur.
+      intros u0. unfold claimable_from, view_progress, cur_week; simpl. rewrite store_progress_prog, u1, progress_after_find.
+      fold (cur_week f). destruct (u =? u0) eqn:Eu; [|lia]. apply Z.eqb_eq in Eu. subst u0.
+      assert (Hold : match pfind (w_prog (fc_w f)) u with Some p => pr_week p | None => cur_week f end <= cw).
+      { destruct (pfind (w_prog (fc_w f)) u) as [p|] eqn:Ep; [apply (prog_ok_find f cw u p Hp Ep) | lia]. }
+      destruct (0 <? en_amount _); simpl; lia.
+Qed.
+
+Lemma NoDup_app_disjoint {A} (l1 l2 : list A) :
+  NoDup l1 -> NoDup l2 -> (forall x, In x l1 -> ~ In x l2) -> NoDup (l1 ++ l2).
+Proof.
+  induction l1 as [|a t IH]; simpl; intros H1 H2 Hd; [exact H2|].
+  inversion H1; subst. constructor.
+  - rewrite in_app_iff. intros [Hi|Hi]; [contradiction | apply (Hd a); [left; reflexivity | exact Hi]].
+  - apply IH; [assumption | assumption | intros x Hx; apply Hd; right; exact Hx].
+Qed.
+
+(** over any history: every (user, week) is processed by at most one claim *)
+Lemma run_log_once ops : forall f, FWf f ->
+  (forall u w, In (u, w) (run_log f ops) -> claimable_from f u <= w) /\ NoDup (run_log f ops).
+Proof.
+  induction ops as [|op t IH]; intros f Hwf; simpl.
+  - split; [intros u w [] | constructor].
+  - destruct (step f op) as [[[f' o] d]|] eqn:Es; [|apply IH; exact Hwf].
+    destruct (step_claimable _ _ _ _ _ Hwf Es) as (Hmono & Hev & Hnd).
+    destruct (IH f' (step_wf _ _ _ _ _ Hwf Es)) as (IH1 & IH2).
+    split.
+    + intros u w Hin. apply in_app_or in Hin. destruct Hin as [Hin|Hin].
+      * apply (Hev _ _ Hin).
+      * specialize (IH1 _ _ Hin). specialize (Hmono u). lia.
+    + apply NoDup_app_disjoint; [exact Hnd | exact IH2|].
+      intros [u w] Hin Hin2. specialize (Hev _ _ Hin). specialize (IH1 _ _ Hin2). lia.
+Qed.
